@@ -1019,6 +1019,14 @@ def plan(pid: str, tier: str, rng: random.Random) -> list[dict]:
                     add(kind="crash", at=at, spec=sp, name=n, drain="random")
             for at in range(0, 30 if thorough else 18):
                 add(kind="inject", what="recover", at=at, times=1 + (at % 2), spec=sp, name=n, policy="fifo")
+    if pid in ("C18", "C06"):
+        # a signal reaching a SUSPENDED stage whose EARLIER tasks ended in other completed statuses (FAILED_CONTINUE, SKIPPED):
+        # only the suspended task may be touched
+        mixed = {"stages": [S("A", tasks=[["failc"], ["skip"], ["susp", "ok:k1=1"], ["ok"]]), S("B", ["A"])]}
+        for at in range(0, 18):
+            for pers in (True, False):
+                add(kind="inject", what="signal", stage=0, signame=1, persistent=pers, at=at, spec=mixed, name="suspend_mixed",
+                    policy=("fifo" if at % 2 else "random"))
     if pid in ("C18",):
         sus2 = {"suspend": (fam["suspend"], 0), "suspend_twice": ({"stages": [S("A", tasks=[["susp", "susp", "ok"]]), S("B", ["A"])]}, 0),
                 "suspend2": ({"stages": [S("A"), S("B", ["A"], tasks=[["ok"], ["susp", "ok:k1=1"]]), S("C", ["B"])]}, 1)}
